@@ -1054,6 +1054,11 @@ class _TRSTractList:
                 for obj_deeper in obj:
                     into.append(obj_deeper)
             else:
+                if isinstance(obj, str):
+                    # A string that is not itself acceptable must not be
+                    # iterated over (its characters are strings, too).
+                    raise TypeError(
+                        f"{cls._typeerror_msg} Cannot accept {type(obj)!r}.")
                 # Assume it's another list-like object.
                 for obj_deeper in obj:
                     # Elements are appended in place, no need to store var.
